@@ -17,6 +17,11 @@ CHECKS = {
     note='Trusted: z3, symx executor (de Moivre expansion of sin/cos of multiples of I/2), Kaula triple-sum oracle written in the harness.',
     technique='symbolic execution of the table source + univariate nonlinear real arithmetic queries in z3',
     design='2/C09'),
+ 'C13': dict(
+    text='Bounded concolic + SMT checking of the real classes: the world/orbit/tides objects are driven in the repository interpreter under a provenance tracer (setter inputs are symbols, leaf numeric functions are uninterpreted, inline arithmetic is interpreted); for every history of set_state calls up to the stated length and every exposed quantity, z3 decides validity of T_history = T_fresh-world (and = the functional API term) over uninterpreted functions and real arithmetic, i.e. for all input values. Histories are enumerated up to the bound; a sat answer is confirmed by the concrete values of the same real run.',
+    note='Trusted: z3, the tracer (replay/c13_tracer.py) which wraps leaf functions at their import sites; control flow that depends on input VALUES is followed for one concrete value per symbol (concolic). Lost provenance degrades to concrete comparison and is reported as not covered.',
+    technique='concolic provenance execution of the real classes + z3 EUF/real-arithmetic validity queries per history and quantity',
+    design='2/C13'),
  'C14': dict(
     text='Bounded SMT validity checking: all eight tidal_potential implementations executed symbolically (trig of integer combinations of base angles expanded over atom pairs with c^2+s^2=1); partial derivatives obtained by differentiating the encoding; z3 decides the six derivative relations and the Laplace identity per mode, modal-sum == non-modal, and the limit relations as vanishing joint Taylor coefficients.',
     note='Trusted: z3, symx executor and its differentiation of the encoding. n>0 assumed. Joint (e,I) truncation of the medium-obliquity variants is read as total order 3 (their coefficient tables); only coefficients with I-order <= 2 are claimed.',
